@@ -194,3 +194,64 @@ def pdag_to_cpdag(pdag: Arr2) -> Arr2:
     # the essential graph of the class of the extension found (L-CHICK: every extension of a PDAG lies in one class)
     ensures(any_extension_cpdag(result, pdag))
     hint(implies(is_extension_of(dag, pdag) and is_cpdag_of(result, dag), any_extension_cpdag(result, pdag)), at='return')
+
+
+# ---- maximally_orient: the Meek closure.  Proved here: the result is an orientation of the input (same adjacencies, entries only
+# ---- removed, and only the reverse entry of an undirected edge) that is CLOSED under the four rules; ValueError exactly when there
+# ---- is no consistent extension (contract of pdag_to_dag, assumed).  That a closed orientation reached by sound steps is the set of
+# ---- edges common to all extensions is Meek's theorem (L-MEEK, cited) and is decided by the bounded harness vkb.c09 only.
+
+@spec
+def meek_applies(A, i, j):
+    """some Meek rule orients i - j into i -> j (the specifications of rule_1 .. rule_4)"""
+    return (any(dedge(A, k, i) and not adjacent(A, j, k) for k in range(len(A)))
+            or any(dedge(A, i, k) and dedge(A, k, j) for k in range(len(A)))
+            or any(k != l and uedge(A, i, k) and dedge(A, k, j) and uedge(A, i, l) and dedge(A, l, j) and not adjacent(A, l, k)
+                   for k in range(len(A)) for l in range(len(A)))
+            or any(uedge(A, i, k) and dedge(A, k, j) and uedge(A, i, h) and dedge(A, h, k) and not adjacent(A, j, h)
+                   for k in range(len(A)) for h in range(len(A))))
+
+
+@spec
+def orientation_of(R, P):
+    """R is P with the reverse entry of some undirected edges removed"""
+    return (len(R.shape) == 2 and R.shape[0] == len(P) and R.shape[1] == len(P)
+            and all(R[a, b] == P[a, b] or (R[a, b] == 0 and uedge(P, a, b)) for a in range(len(P)) for b in range(len(P)))
+            and all(iff(adjacent(R, a, b), adjacent(P, a, b)) for a in range(len(P)) for b in range(len(P))))
+
+
+@spec
+def meek_closed(R):
+    return all(implies(uedge(R, a, b), not meek_applies(R, a, b)) for a in range(len(R)) for b in range(len(R)))
+
+
+@contract("sempler.utils.maximally_orient", cases={'debug': [False]})
+def maximally_orient(P: Arr2) -> Arr2:
+    requires(pdag_ok(P))
+    raises(ValueError, when=not has_extension(P))
+    ensures(orientation_of(result, P), meek_closed(result))
+    fresh(result)
+
+
+@invariant("sempler.utils.maximally_orient", loop=1)
+def _mo_outer(P, oriented_edges):
+    holds(orientation_of(P, old(P)),
+          implies(not oriented_edges, meek_closed(P)))
+
+
+@invariant("sempler.utils.maximally_orient", loop=2)
+def _mo_inner(P, oriented_edges, i, j):
+    holds(orientation_of(P, old(P)),
+          # the sweep list: the undirected edges at the head of the sweep, each once (larger endpoint first)
+          all(0 <= _iter2[m][0] and _iter2[m][0] < len(P) and 0 <= _iter2[m][1] and _iter2[m][1] < len(P) for m in range(len(_iter2))),
+          all(implies(m != m2, _iter2[m][0] != _iter2[m2][0] or _iter2[m][1] != _iter2[m2][1]) for m in range(len(_iter2)) for m2 in range(len(_iter2))),
+          all(_iter2[m][0] > _iter2[m][1] for m in range(len(_iter2))),
+          # edges not yet visited are still undirected
+          all(uedge(P, _iter2[m][0], _iter2[m][1]) for m in range(_k2, len(_iter2))),
+          # as long as nothing was oriented in this sweep: the list is every undirected edge of the current graph, and no rule applies
+          # to the visited ones in either direction
+          implies(not oriented_edges,
+                  all(implies(uedge(P, a, b) and a > b, any(_iter2[m][0] == a and _iter2[m][1] == b for m in range(len(_iter2))))
+                      for a in range(len(P)) for b in range(len(P)))),
+          implies(not oriented_edges,
+                  all(not meek_applies(P, _iter2[m][0], _iter2[m][1]) and not meek_applies(P, _iter2[m][1], _iter2[m][0]) for m in range(_k2))))
